@@ -276,8 +276,11 @@ def run_property(build_mod: str, pid: str, argv=None) -> int:
             if rec:
                 known_hits.append((rec, ob))
             elif ob["name"] in baseline or ob["name"].split("#p")[0] in baseline_base:
-                ob["detail"] += " | was discharged in the committed baseline, now undecided by both solvers"
-                violations.append(ob)
+                # the function or a contract changed (another VC than the baseline's) and no solver decides the new VC: that is not evidence of a
+                # violation - a behaviour-preserving refactoring can make a proof time out just as well (seen with an extracted helper) - so it is
+                # reported as undecided (exit 2), never as a VIOLATION
+                ob["detail"] += " | was discharged in the committed baseline for another VC (the function or a contract changed); no solver decides the new one"
+                undecided.append(ob)
             else:
                 undecided.append(ob)
     bounded_viol = []
